@@ -1,6 +1,7 @@
 #include "gt.h"
 
 #include <algorithm>
+#include <cctype>
 #include <cmath>
 #include <deque>
 #include <functional>
@@ -228,7 +229,48 @@ struct ExprGen
         if (opsUsed != nullptr) {
             opsUsed->push_back(opName(e.op));
         }
+        if (opt.unaryPlus) {
+            e = withUnaryPlus(e);
+        }
         return e;
+    }
+    // opt.unaryPlus (no tape reads): a piecewise is rebuilt from its own material so that a piecewise below a unary plus is the
+    // value / the condition of a piece, and any expression now and then gets a unary plus in front.
+    Expr withUnaryPlus(const Expr &e)
+    {
+        const uint64_t h = fnv("unary-plus:" + exprToSexp(e));
+        Expr r = e;
+        if (e.op == Op::PIECEWISE && e.hasOtherwise && h % 3 != 0) {
+            if (e.kids.size() == 5) {
+                // [v1, c1, v2, c2, o] -> [+(piecewise v1 if c1 otherwise v2), c2, o]
+                Expr inner;
+                inner.op = Op::PIECEWISE;
+                inner.hasOtherwise = true;
+                inner.kids = {e.kids[0], e.kids[1], e.kids[2]};
+                r.kids = {Expr::make(Op::PLUS, {inner}), e.kids[3], e.kids[4]};
+            } else if (e.kids.size() == 3) {
+                // [v1, c1, o] -> [v1, +(piecewise 1.5 if c1 otherwise 2), o]: the condition is a (non-zero) piecewise
+                Expr inner;
+                inner.op = Op::PIECEWISE;
+                inner.hasOtherwise = true;
+                inner.kids = {Expr::cn(1.5, "dimensionless", "1.5"), e.kids[1], Expr::cn(2, "dimensionless", "2")};
+                r.kids = {e.kids[0], Expr::make(Op::PLUS, {inner}), e.kids[2]};
+            }
+            if (good(r)) {
+                if (opsUsed != nullptr) {
+                    opsUsed->push_back("plus-piecewise-in-piece");
+                }
+            } else {
+                r = e;
+            }
+        }
+        if (h % 11 == 5) {
+            r = Expr::make(Op::PLUS, {r});
+            if (opsUsed != nullptr) {
+                opsUsed->push_back("unary-plus");
+            }
+        }
+        return r;
     }
     long excluded = 0;
 };
@@ -257,6 +299,7 @@ struct Builder
     std::vector<std::set<std::string>> varNames; // per component
     std::set<std::string> unitsNames;
     std::vector<std::vector<std::pair<Expr, Expr>>> equations; // per component
+    unsigned scalePct = 35; // chance that a new instance gets scaled units (raised while the C03 extensions create instances)
 
     Builder(Src &s, const GtOptions &o)
         : src(s)
@@ -385,7 +428,7 @@ struct Builder
             const GtInstance &home = c.inst[0];
             ni.units = home.units;
             ni.log10scale = home.log10scale;
-            if (opt.scaledUnits && src.flip(35)) {
+            if (opt.scaledUnits && src.flip(scalePct)) {
                 // a compatible but scaled units definition (prefix on an exponent-1 child of the home units' base)
                 std::string base = home.units;
                 double baseScale = home.log10scale;
@@ -690,6 +733,24 @@ GtModel genGroundTruthModel(Src &src, const GtOptions &opt)
             }
             known.push_back(static_cast<int>(k));
         }
+        if (opt.nlaDependents && !withGuesses) {
+            // C03 extension: in a third of the single-unknown systems the solution reads constants only, so that (with a variable
+            // computed from the unknown, below) a constant determined through an NLA system occurs in ODE models too
+            std::string key;
+            for (const auto &kc : m.classes) {
+                key += std::to_string(kc.value[0]) + ";";
+            }
+            if (fnv("constant-system:" + key) % 3 == 0) {
+                std::vector<int> steady;
+                for (int k : known) {
+                    if (!m.classes[static_cast<size_t>(k)].varying) {
+                        steady.push_back(k);
+                    }
+                }
+                known = steady;
+                ++m.counters["nla-constant-system"];
+            }
+        }
         std::vector<std::pair<std::string, double>> vars;
         std::map<std::string, int> n2c;
         b.available(sys.comp, known, vars, n2c);
@@ -732,6 +793,15 @@ GtModel genGroundTruthModel(Src &src, const GtOptions &opt)
             }
             return r;
         };
+        bool sparse = false;
+        if (opt.nlaSparseReads && nlaSize > 1) {
+            std::string all;
+            for (const auto &w : W) {
+                all += exprToSexp(w);
+            }
+            sparse = fnv("sparse:" + all) % 4 != 0;
+        }
+        std::vector<int> sparseInputs;
         for (size_t i = 0; i < nlaSize; ++i) {
             std::vector<Expr> terms;
             for (size_t j = 0; j < nlaSize; ++j) {
@@ -765,6 +835,39 @@ GtModel genGroundTruthModel(Src &src, const GtOptions &opt)
                 rhs = subst(F, mp);
                 ++m.counters["repairs"];
             }
+            if (sparse) {
+                // g_i = F_i(W) as a variable of its own (never alone on one side of the system's equation: with initial
+                // guesses the unknowns count as known in the analyser's first passes and a bare g_i would be taken for the
+                // unknown of this equation); equation i of the system then reads g_i and no sibling does.
+                const uint64_t h = fnv("sparse-eq:" + exprToSexp(F));
+                int g = newClass(GtRole::COMPUTED_CONSTANT, sys.comp, "g", unitsPool[h % unitsPool.size()]);
+                {
+                    GtClass &gc = m.classes[static_cast<size_t>(g)];
+                    gc.rhs = rhs;
+                    std::vector<std::string> used;
+                    collectVars(rhs, used);
+                    for (const auto &u : used) {
+                        gc.deps.push_back(n2c[u]);
+                        gc.varying = gc.varying || m.classes[static_cast<size_t>(n2c[u])].varying;
+                    }
+                    gc.role = gc.varying ? GtRole::ALGEBRAIC : GtRole::COMPUTED_CONSTANT;
+                    gc.value[0] = b.evalAt(rhs, sys.comp, 0);
+                    gc.value[1] = b.evalAt(rhs, sys.comp, 1);
+                }
+                Expr gi = Expr::ci(localName(g, 0));
+                b.equations[static_cast<size_t>(sys.comp)].emplace_back(gi, rhs);
+                sparseInputs.push_back(g);
+                if ((h >> 8) % 2 == 0) {
+                    F = Expr::make(Op::MINUS, {F, gi});
+                    rhs = Expr::cn(0, "dimensionless", "0");
+                } else {
+                    rhs = Expr::make(Op::PLUS, {gi, Expr::cn(0, "dimensionless", "0")});
+                }
+                ++m.counters["nla-sparse-equation"];
+                sys.equations.emplace_back(F, rhs);
+                b.equations[static_cast<size_t>(sys.comp)].emplace_back(F, rhs);
+                continue;
+            }
             // With initial guesses the unknowns count as known in the analyser's first passes, so a bare k that still awaits
             // its own equation would be taken for the unknown of this one: only the voi and states qualify then.
             std::vector<std::string> bare;
@@ -784,7 +887,288 @@ GtModel genGroundTruthModel(Src &src, const GtOptions &opt)
             sys.equations.emplace_back(F, rhs);
             b.equations[static_cast<size_t>(sys.comp)].emplace_back(F, rhs);
         }
+        if (sparse) {
+            // what the unknowns read is now the g_i
+            for (int u : sys.unknowns) {
+                m.classes[static_cast<size_t>(u)].deps = sparseInputs;
+            }
+            ++m.counters["nla-sparse-system"];
+        }
         m.nla.push_back(sys);
+        // ---- variables computed from the unknowns (C03 extension)
+        if (opt.nlaDependents && fnv("dependents:" + exprToSexp(W[0])) % 3 != 0) {
+            const size_t nDep = 1 + fnv("dependents-n:" + exprToSexp(W[0])) % 2;
+            for (size_t d = 0; d < nDep; ++d) {
+                const uint64_t h = fnv("dependent:" + std::to_string(d) + exprToSexp(W[W.size() - 1]));
+                const int comp = (h % 3 == 0) ? static_cast<int>((h >> 8) % nComps) : sys.comp;
+                std::vector<int> readable = known;
+                bool steadySystem = true;
+                for (int u : sys.unknowns) {
+                    steadySystem = steadySystem && !m.classes[static_cast<size_t>(u)].varying;
+                }
+                if (steadySystem && (h >> 3) % 4 != 0) {
+                    // a constant system: mostly keep what is computed from it constant too
+                    readable.clear();
+                    for (int k : known) {
+                        if (!m.classes[static_cast<size_t>(k)].varying) {
+                            readable.push_back(k);
+                        }
+                    }
+                }
+                readable.insert(readable.end(), sys.unknowns.begin(), sys.unknowns.end());
+                std::vector<std::pair<std::string, double>> dvars;
+                std::map<std::string, int> dn2c;
+                b.available(comp, readable, dvars, dn2c);
+                long rep = 0;
+                Expr rhs = genValueExpr(src, dvars, 2, opt, &rep, &m.operatorsUsed);
+                std::vector<std::string> used;
+                collectVars(rhs, used);
+                bool readsUnknown = false;
+                for (const auto &u : used) {
+                    readsUnknown = readsUnknown || m.classes[static_cast<size_t>(dn2c[u])].role == GtRole::NLA;
+                }
+                const int u0 = sys.unknowns[(h >> 16) % sys.unknowns.size()];
+                const std::string u0name = localName(u0, b.instanceIn(u0, comp));
+                if (!readsUnknown) {
+                    rhs = Expr::make(Op::PLUS, {rhs, Expr::make(Op::TIMES, {Expr::cn(2, "dimensionless", "2"), Expr::ci(u0name)})});
+                }
+                if (b.marginAt(rhs, comp, 0) < kMargin || b.marginAt(rhs, comp, 1) < kMargin) {
+                    ++rep;
+                    rhs = Expr::make(Op::PLUS, {Expr::ci(u0name), Expr::cn(1.5, "dimensionless", "1.5")});
+                }
+                m.counters["repairs"] += rep;
+                int y = newClass(GtRole::ALGEBRAIC, comp, "y", unitsPool[(h >> 24) % unitsPool.size()]);
+                GtClass &yc = m.classes[static_cast<size_t>(y)];
+                yc.rhs = rhs;
+                used.clear();
+                collectVars(rhs, used);
+                for (const auto &u : used) {
+                    yc.deps.push_back(dn2c[u]);
+                    yc.varying = yc.varying || m.classes[static_cast<size_t>(dn2c[u])].varying;
+                }
+                yc.value[0] = b.evalAt(rhs, comp, 0);
+                yc.value[1] = b.evalAt(rhs, comp, 1);
+                b.equations[static_cast<size_t>(comp)].emplace_back(Expr::ci(localName(y, 0)), rhs);
+                ++m.counters["nla-dependent"];
+            }
+        }
+    }
+    // ---- C03 extensions (all off by default; see GtOptions)
+    // a component in which class cls has no instance yet (one is then created, mostly scaled) or a scaled one, searched from start
+    auto preferScaledComp = [&](int cls, size_t start) -> int {
+        for (size_t d = 0; d < nComps; ++d) {
+            const int comp = static_cast<int>((start + d) % nComps);
+            const GtClass &c = m.classes[static_cast<size_t>(cls)];
+            int found = -1;
+            for (size_t i = 0; i < c.inst.size(); ++i) {
+                if (c.inst[i].comp == comp) {
+                    found = static_cast<int>(i);
+                }
+            }
+            if (found < 0 || c.inst[static_cast<size_t>(found)].log10scale != c.inst[0].log10scale) {
+                return comp;
+            }
+        }
+        return static_cast<int>(start % nComps);
+    };
+    if (opt.rateReaders && m.voi >= 0) {
+        // r = dx/dt: a rate read as one whole side of an equation, in a component that sees the state and the variable of
+        // integration through instances of their own (mostly scaled)
+        b.scalePct = 65;
+        size_t made = 0;
+        const size_t nBefore = m.classes.size();
+        for (size_t k = 0; k < nBefore && made < 2; ++k) {
+            if (m.classes[k].role != GtRole::STATE) {
+                continue;
+            }
+            const uint64_t h = fnv("rate-reader:" + localName(static_cast<int>(k), 0) + exprToSexp(m.classes[k].rhs));
+            if (h % 3 == 0) {
+                continue;
+            }
+            const int comp = (h >> 5) % 4 == 0 ? static_cast<int>((h >> 8) % nComps) : preferScaledComp(m.voi, (h >> 8) % nComps);
+            const int ti = b.instanceIn(m.voi, comp);
+            const int xi = b.instanceIn(static_cast<int>(k), comp);
+            if (ti < 0 || xi < 0) {
+                continue;
+            }
+            int r = newClass(GtRole::ALGEBRAIC, comp, "r", unitsPool[(h >> 16) % unitsPool.size()]);
+            GtClass &rc = m.classes[static_cast<size_t>(r)];
+            const GtClass &xc = m.classes[k];
+            const GtClass &vc = m.classes[static_cast<size_t>(m.voi)];
+            // d(local x)/d(local t) from d(home x)/d(the voi instance the ODE is written against)
+            const double f = std::pow(10.0, xc.inst[0].log10scale - xc.inst[static_cast<size_t>(xi)].log10scale) * std::pow(10.0, vc.inst[static_cast<size_t>(ti)].log10scale - vc.inst[static_cast<size_t>(xc.voiLocalInst)].log10scale);
+            Expr rhs = Expr::make(Op::DIFF, {Expr::ci(localName(m.voi, ti)), Expr::ci(localName(static_cast<int>(k), xi))});
+            double add = 0.0;
+            if ((h >> 24) % 3 == 0) {
+                rhs = Expr::make(Op::PLUS, {rhs, Expr::cn(1.5, "dimensionless", "1.5")});
+                add = 1.5;
+            }
+            rc.varying = true;
+            rc.rhs = rhs;
+            rc.deps.push_back(static_cast<int>(k));
+            rc.value[0] = xc.rate[0] * f + add;
+            rc.value[1] = xc.rate[1] * f + add;
+            b.equations[static_cast<size_t>(comp)].emplace_back(Expr::ci(localName(r, 0)), rhs);
+            ++made;
+            ++m.counters[f != 1.0 ? "rate-reader-scaled" : "rate-reader"];
+            if (vc.inst[static_cast<size_t>(ti)].log10scale != vc.inst[0].log10scale || vc.inst[static_cast<size_t>(xc.voiLocalInst)].log10scale != vc.inst[0].log10scale) {
+                ++m.counters["rate-reader-scaled-voi"];
+            }
+        }
+        b.scalePct = 35;
+    }
+    if (opt.initByName) {
+        std::vector<int> consts;
+        for (size_t k = 0; k < m.classes.size(); ++k) {
+            if (m.classes[k].role == GtRole::CONSTANT) {
+                consts.push_back(static_cast<int>(k));
+            }
+        }
+        std::string key;
+        for (int k : consts) {
+            key += localName(k, 0) + "=" + std::to_string(m.classes[static_cast<size_t>(k)].value[0]) + ";";
+        }
+        const uint64_t h = fnv("init-by-name:" + key + std::to_string(m.classes.size()));
+        if (!consts.empty() && h % 4 != 0) {
+            b.scalePct = 70;
+            int q = consts[(h >> 8) % consts.size()];
+            int comp = (h >> 5) % 4 == 0 ? static_cast<int>((h >> 16) % nComps) : preferScaledComp(q, (h >> 16) % nComps);
+            if ((h >> 5) % 4 != 0) {
+                // better still: a constant that already has a scaled instance somewhere
+                for (size_t d = 0; d < consts.size(); ++d) {
+                    const int cand = consts[((h >> 8) + d) % consts.size()];
+                    const GtClass &cc = m.classes[static_cast<size_t>(cand)];
+                    bool found = false;
+                    for (size_t i = 1; i < cc.inst.size() && !found; ++i) {
+                        if (cc.inst[i].log10scale != cc.inst[0].log10scale) {
+                            q = cand;
+                            comp = cc.inst[i].comp;
+                            found = true;
+                        }
+                    }
+                    if (found) {
+                        break;
+                    }
+                }
+            }
+            const bool reversed = (h >> 24) % 2 == 0; // declared before what they name
+            const bool chain = (h >> 25) % 2 == 0;
+            const bool state = m.voi >= 0 && (h >> 26) % 2 == 0;
+            const std::string placeholder = "dimensionless";
+            int p = -1, p2 = -1, qi = -1;
+            if (reversed) {
+                if (chain) {
+                    p2 = newClass(GtRole::CONSTANT, comp, "p", placeholder);
+                }
+                p = newClass(GtRole::CONSTANT, comp, "p", placeholder);
+                qi = b.instanceIn(q, comp);
+            } else {
+                qi = b.instanceIn(q, comp);
+                p = newClass(GtRole::CONSTANT, comp, "p", placeholder);
+                if (chain) {
+                    p2 = newClass(GtRole::CONSTANT, comp, "p", placeholder);
+                }
+            }
+            const GtInstance ql = m.classes[static_cast<size_t>(q)].inst[static_cast<size_t>(qi)];
+            const double v = m.instanceValue(q, qi, 0);
+            // the initialised variables take the units of the instance they name, so that no conversion question arises
+            auto adopt = [&](int cls, const std::string &initial) {
+                GtClass &c = m.classes[static_cast<size_t>(cls)];
+                auto &sv = m.spec.comps[static_cast<size_t>(comp)].vars[static_cast<size_t>(c.inst[0].var)];
+                sv.units = ql.units;
+                sv.initial = initial;
+                c.inst[0].units = ql.units;
+                c.inst[0].log10scale = ql.log10scale;
+                c.value[0] = c.value[1] = v;
+            };
+            adopt(p, localName(q, qi));
+            if (p2 >= 0) {
+                adopt(p2, localName(p, 0));
+            }
+            ++m.counters["init-by-name-constant"];
+            if (ql.log10scale != m.classes[static_cast<size_t>(q)].inst[0].log10scale) {
+                ++m.counters["init-by-name-scaled"];
+            }
+            if (chain) {
+                ++m.counters["init-by-name-chain"];
+            }
+            if (reversed) {
+                ++m.counters["init-by-name-declared-before"];
+            }
+            if (state) {
+                const int ti = b.instanceIn(m.voi, comp);
+                int s2 = newClass(GtRole::STATE, comp, "s", placeholder);
+                adopt(s2, (h >> 27) % 2 == 0 ? localName(q, qi) : localName(p, 0));
+                GtClass &sc = m.classes[static_cast<size_t>(s2)];
+                sc.varying = true;
+                sc.value[1] = statePoint2[(h >> 28) % 8];
+                sc.initialisedBy = q;
+                sc.voiLocalInst = ti;
+                sc.deps.push_back(s2);
+                if ((h >> 31) % 2 == 0) {
+                    sc.rhs = Expr::make(Op::TIMES, {Expr::cn(-0.5, "dimensionless", "-0.5"), Expr::ci(localName(s2, 0))});
+                    sc.rate[0] = -0.5 * sc.value[0];
+                    sc.rate[1] = -0.5 * sc.value[1];
+                } else {
+                    sc.rhs = Expr::make(Op::PLUS, {Expr::ci(localName(s2, 0)), Expr::cn(1.5, "dimensionless", "1.5")});
+                    sc.rate[0] = sc.value[0] + 1.5;
+                    sc.rate[1] = sc.value[1] + 1.5;
+                }
+                b.equations[static_cast<size_t>(comp)].emplace_back(Expr::make(Op::DIFF, {Expr::ci(localName(m.voi, ti)), Expr::ci(localName(s2, 0))}), sc.rhs);
+                haveOde = true;
+                ++m.counters["init-by-name-state"];
+            }
+            b.scalePct = 35;
+        }
+    }
+    if (opt.exoticReals) {
+        // numeric initial values respelled, same value: what a CellML real may look like beyond the generator's own pool
+        for (auto &cs : m.spec.comps) {
+            for (auto &v : cs.vars) {
+                const std::string t = v.initial;
+                if (t.empty() || !(std::isdigit(static_cast<unsigned char>(t[0])) != 0 || t[0] == '-' || t[0] == '.')) {
+                    continue;
+                }
+                const uint64_t h = fnv("real:" + cs.name + "." + v.name + "=" + t);
+                std::string n = t;
+                const size_t e = t.find_first_of("eE");
+                if (e != std::string::npos) {
+                    switch (h % 3) {
+                    case 0: break;
+                    case 1: n[e] = 'E'; break;
+                    default:
+                        n[e] = 'E';
+                        if (e + 1 < n.size() && std::isdigit(static_cast<unsigned char>(n[e + 1])) != 0) {
+                            n.insert(e + 1, "+");
+                        }
+                        break;
+                    }
+                } else {
+                    const bool neg = t[0] == '-';
+                    const std::string body = neg ? t.substr(1) : t;
+                    const size_t dot = body.find('.');
+                    const std::string ip = dot == std::string::npos ? body : body.substr(0, dot);
+                    const std::string fp = dot == std::string::npos ? "" : body.substr(dot + 1);
+                    switch (h % 9) {
+                    case 0:
+                    case 1:
+                    case 2: break;
+                    case 3: n = t + "E0"; break;
+                    case 4: n = t + "E+00"; break;
+                    case 5: n = (dot == std::string::npos) ? t + "." : t + "0"; break;
+                    case 6: n = std::string(neg ? "-" : "") + "0" + body; break;
+                    case 7: n = t + "e-0"; break;
+                    default: // mantissa times ten, exponent -1
+                        n = std::string(neg ? "-" : "") + ip + (fp.empty() ? "0" : fp.substr(0, 1)) + (fp.size() > 1 ? "." + fp.substr(1) : "") + "E-1";
+                        break;
+                    }
+                }
+                if (n != t && strtod(n.c_str(), nullptr) == strtod(t.c_str(), nullptr)) {
+                    v.initial = n;
+                    ++m.counters[n.find('E') != std::string::npos ? "exotic-real-upper-e" : "exotic-real"];
+                }
+            }
+        }
     }
     // ---- interfaces
     for (size_t ci = 0; ci < m.spec.comps.size(); ++ci) {
